@@ -24,7 +24,10 @@ def main():
         if r.returncode != 0:
             print("PATCH DOES NOT APPLY:", r.stderr[-500:])
             return 2
-        subprocess.run(["rsync", "-a", "--exclude", ".git", "--exclude", "replay", "--exclude", "__pycache__", str(VERIF) + "/", str(vcopy) + "/"], check=True)
+        # files of checks running at the same time may vanish while the copy is taken (rsync exit 24): not an error
+        r = subprocess.run(["rsync", "-a", "--exclude", ".git", "--exclude", "replay", "--exclude", "__pycache__", "--exclude", ".audit_*", str(VERIF) + "/", str(vcopy) + "/"])
+        if r.returncode not in (0, 24):
+            raise SystemExit("rsync failed with status %d" % r.returncode)
         env = dict(os.environ, VERIF_REPO=str(wt))
         for pid in pids:
             p = subprocess.run(["./check", pid, "--tier", os.environ.get("SEED_TIER", "quick")], cwd=str(vcopy), env=env, capture_output=True, text=True, timeout=3600)
